@@ -1,6 +1,7 @@
 """C03 - A successful commit is durable and reopens to the same state (structural clauses)."""
 from ..defuse import du_of, walk, peel, callee_name, fmt
 from ..callgraph import cg_of
+from ..cfg import cfg_of
 from ..conds import lits_of
 from ..common import arg_term, contains_call, call_named, field_path, ADAPTER_TRAIT
 from .. import tables
@@ -69,6 +70,24 @@ def run(facts, res):
                           "%s finds object boundaries by comparing bytes with '{' and '}' but never with %s: a brace "
                           "inside a JSON string value ends an object early and its digest is never indexed" % (
                               b.path, " / ".join(repr(chr(c)) for c in (QUOTE, BACKSLASH) if c not in S)), b.loc())
+
+        # K1b: the scanner, abstractly interpreted over byte classes, is equivalent to the reference machine for
+        # "boundaries of top-level JSON objects" on every class string up to the bound
+        if S:
+            from ..scanner import Scanner, Unsupported
+            try:
+                sc = Scanner(b, facts)
+                nst, ntr, cex = sc.compare(maxlen=7, maxdepth=2)
+                res.instance("K1", "%s: scanner transition system (state variables %s) compared with the reference JSON object-boundary machine: "
+                             "%d product states, %d transitions, byte-class strings up to length 7, nesting up to 2: %s" % (
+                                 b.path, [b.local_name(l) for l in sc.state_vars], nst, ntr, "equivalent" if cex is None else "DIFFERS"), b.loc())
+                if cex is not None:
+                    res.violation("K1", "%s|scanner-differs-from-json-boundaries" % b.path,
+                                  "%s does not find the boundaries of top-level JSON objects: %s (abstract interpretation of the loop body; classes: { } \" \\ and o = any other byte)" % (b.path, cex), b.loc())
+            except Unsupported as e:
+                res.violation("K1", "%s|scanner-not-abstractable" % b.path,
+                              "cannot abstract the byte scanner of %s (%s); accepted idiom: a `for (offset, byte) in data.iter().enumerate()` loop over constant-initialised "
+                              "state variables with comparisons against the JSON structural bytes (fail closed)" % (b.path, e), b.loc())
 
     # ------------------------------------------------------------------ K2a keys
     w = facts.body("melda::Delta::to_json")
@@ -173,6 +192,67 @@ def run(facts, res):
             res.violation("K2", "%s|pack-offsets-not-those-of-appended-bytes" % b.path,
                           "%s: the (offset,length) recorded in the pack index is not (buffer length before append, "
                           "length of the appended bytes)" % b.path, b.loc())
+
+    # ------------------------------------------------------------------ K4 the block records every staged entry
+    # RevisionTree::commit clears the staging flag of *every* entry, so commit must serialise every staged entry:
+    # the change records are pushed from a loop over the complete revision map, once per entry whose flag is set
+    res.rule("K4", "commit / stage serialise every staged entry of every tree exactly once")
+    from ..common import whole_iteration
+    from ..conds import all_edge_lits
+    n_k4 = 0
+    for fn in ("melda::Melda::commit", "melda::Melda::stage"):
+        fb = facts.body(fn)
+        if fb is None:
+            continue
+        for cb in [fb] + facts.closures_of(fb.path):
+            du = du_of(cb)
+            cfg = cfg_of(cb)
+            pushes = []
+            for bi, t in cb.calls():
+                if t.callee is None or t.callee.name != "push" or len(t.args) < 2:
+                    continue
+                recv = du.operand_term(t.args[0], 8)
+                if not any(x[0] in ("var", "upvar") and x[2] == "changes" for x in walk(recv)) and "Change" not in cb.local_ty(t.args[0].place.local if t.args[0].place is not None else 0):
+                    if "melda::Change" not in (t.callee.full or ""):
+                        continue
+                pushes.append((bi, t))
+            if not pushes:
+                continue
+            for bi, t in pushes:
+                n_k4 += 1
+                v = du.operand_term(t.args[1], 30)
+                if cb.kind == "closure":
+                    # for_each closure over get_revisions().iter(): elements are the closure parameter
+                    sites = [s_ for s_ in cg_of(facts).callers_of(cb.path) if cb in s_.closures]
+                    src_ok = False
+                    for s_ in sites:
+                        rcv = arg_term(s_.body, s_.term, 0, 20)
+                        names = [callee_name(x) for x in walk(rcv) if x[0] == "call"]
+                        if "get_revisions" in names and s_.callee.name == "for_each" and not (set(names) & {"take", "skip", "filter", "step_by", "take_while", "skip_while"}):
+                            src_ok = True
+                else:
+                    src_ok = whole_iteration(cb, v) and contains_call(v, "get_revisions") and not contains_call(v, "get_leafs")
+                staged = any(l.kind == "call" and callee_name(l.term) == "is_staging" and l.truth is True for l in lits_of(cb, bi, facts))
+                res.instance("K4", "%s: change record pushed for each element of the complete revision map (%s) under is_staging() (%s)" % (cb.path, src_ok, staged), cb.loc(t.line))
+                if not (src_ok and staged):
+                    res.violation("K4", "%s|change-set-not-all-staged-entries" % fn,
+                                  "%s builds its change records from something other than `every entry of get_revisions() with is_staging()` (whole map: %s, under is_staging: %s): "
+                                  "RevisionTree::commit marks every entry committed, so an entry that is not serialised (e.g. a resolution marker, which is never a leaf) is lost on reopen" % (
+                                      fn, src_ok, staged), cb.loc(t.line))
+            # every staged entry yields a record: from the is_staging()==true edge the loop cannot continue without a push
+            edges = all_edge_lits(cb, facts)
+            st_edges = [e for e, l in edges if l.kind == "call" and callee_name(l.term) == "is_staging" and l.truth is True]
+            pb = {bi for bi, _ in pushes}
+            for e in st_edges:
+                if cb.kind == "closure":
+                    ok = not cfg.return_reachable_without(e, pb)
+                else:
+                    hdrs = [hb for hb, ht in cb.calls() if ht.callee is not None and ht.callee.name == "next" and cfg.is_loop_header(hb) and cfg.reaches(e, hb)]
+                    ok = bool(hdrs) and not any(cfg.reaches(e, hb, avoid=pb) for hb in hdrs[-1:])
+                res.instance("K4", "%s: every staged entry produces a change record (no path skips the push): %s" % (cb.path, ok), cb.loc())
+                if not ok:
+                    res.violation("K4", "%s|staged-entry-skipped" % fn, "%s can skip the change record of a staged entry" % fn, cb.loc())
+    res.floor("K4", "change-record push sites in commit and stage", n_k4, 2)
 
     # ------------------------------------------------------------------ K2f storage key
     c = facts.body("melda::Melda::commit")
